@@ -479,9 +479,16 @@ func (rs *RelationService) createTable(r *Relation, tableName string) error {
 		return ErrTableAlreadyExist
 	}
 
-	// refuse the statement before anything is changed if the catalog can't
-	// hold one of the column definitions
-	for _, fd := range r.Fields {
+	// refuse the statement before anything is changed if it names a column
+	// twice (rows are keyed by column name, so only one of the two columns
+	// could hold a value) or if the catalog can't hold one of the column
+	// definitions
+	for i, fd := range r.Fields {
+		for _, prev := range r.Fields[:i] {
+			if prev.Name == fd.Name {
+				return fmt.Errorf("%w: %s", ErrFieldRepeated, fd.Name)
+			}
+		}
 		tuple := Tuple{
 			Relation: &schemaTableSchema,
 			Vals: map[string]interface{}{
